@@ -278,12 +278,38 @@ fn generate(rng: &mut Rng, thorough: bool) -> Vec<Call> {
     add("distinct values", vec![l.into()], "list-unary");
     add("union", vec![l.into(), l.into()], "union");
   }
+  // nulls that were computed (they carry a trace message) beside literal nulls: all are the one value null
+  for l in ["[1, 1/0, 3, null]", "[null, 1/0]", "[1/0, number(\"x\", \",\", \".\"), null, 2]", "[[1/0], [null]]", "[{a: 1/0}, {a: null}]"] {
+    for e in ["null", "1/0", "3", "[null]", "[1/0]", "{a: null}", "{a: 1/0}"] {
+      add("index of", vec![l.into(), e.into()], "list-computed-null");
+      add("list contains", vec![l.into(), e.into()], "list-computed-null");
+      add("append", vec![l.into(), e.into()], "list-computed-null");
+    }
+    add("distinct values", vec![l.into()], "list-computed-null");
+    add("union", vec![l.into(), "[1/0, 2, null]".into()], "list-computed-null");
+    add("union", vec!["[null]".into(), l.into()], "list-computed-null");
+    add("count", vec![l.into()], "list-computed-null");
+  }
   add("flatten", vec!["[[1, [2, [3, [4, []]]]], 5, [[]], [[6]]]".into()], "list-unary");
   add("sort", vec!["[3, 1, 2, 1.0, 3.0]".into(), "function(x,y) x < y".into()], "sort");
   add("sort", vec!["[3, 1, 2]".into(), "function(x,y) x > y".into()], "sort");
   add("sort", vec!["[\"b\", \"a\", \"c\"]".into(), "function(a,b) a < b".into()], "sort");
   add("sort", vec!["[3, 1, 2]".into(), "function(x) x".into()], "sort");
   add("sort", vec!["[3, 1, 2]".into(), "1".into()], "sort");
+  // sort with ordering functions that are and are not total orders, on lists long enough for a library sort to notice
+  for _ in 0..(if thorough { 600 } else { 60 }) {
+    let n = rng.below(45) as usize;
+    let items: Vec<String> = (0..n)
+      .map(|_| match rng.below(12) {
+        0 => "null".to_string(),
+        1 => format!("\"{}\"", rng.pick(&["a", "b", "ab", ""])),
+        2 => format!("{}.0", rng.below(6)),
+        _ => format!("{}", rng.below(12)),
+      })
+      .collect();
+    let f = *rng.pick(&["function(x,y) x < y", "function(x,y) x > y", "function(x,y) x <= y", "function(x,y) x != y", "function(x,y) x = y", "function(x,y) true", "function(x,y) false"]);
+    add("sort", vec![format!("[{}]", items.join(", ")), f.into()], "sort-ordering");
+  }
 
   // ---------------------------------------------------------------- three-valued all / any: every list over {true,false,null,1} up to length 3
   let tv = ["true", "false", "null", "1"];
@@ -586,7 +612,8 @@ pub fn run(cfg: &Cfg) -> Report {
       return r.clone();
     }
     let r = match guarded(|| crate::c09::eval_text(&scope, text)) {
-      Ok(Value::Null(Some(_))) => None, // an argument that does not evaluate (parse error …)
+      // an argument that does not evaluate (parse error …); `1/0` is a deliberate computed null
+      Ok(Value::Null(Some(_))) if text != "1/0" => None,
       Ok(v) => value_sexp(&v).map(|s| s.to_string()),
       Err(_) => None,
     };
@@ -626,8 +653,29 @@ pub fn run(cfg: &Cfg) -> Report {
       named = Some(run_impl(&scope, &t));
       named_text = Some(t);
     }
+    // `sort` with one of the fixed ordering functions: the model's merge sort on the named relation
+    let sort_rel = if call.bif == "sort" && call.args.len() == 2 {
+      match call.args[1].as_str() {
+        "function(x,y) x < y" => Some("lt"),
+        "function(x,y) x > y" => Some("gt"),
+        "function(x,y) x <= y" => Some("le"),
+        "function(x,y) x != y" => Some("ne"),
+        "function(x,y) x = y" => Some("eq"),
+        "function(x,y) true" => Some("true"),
+        "function(x,y) false" => Some("false"),
+        _ => None,
+      }
+    } else {
+      None
+    };
+    if let Some(rel) = sort_rel {
+      if let Some(l) = enc(&call.args[0]) {
+        req_pos = Some(reqs.len());
+        reqs.push(format!("(c08 sort {} {})", rel, l));
+      }
+    }
     if let Some(encs) = &encs {
-      // function values (sort) are not sent to the model
+      // other function values are not sent to the model
       if !call.args.iter().any(|a| a.starts_with("function")) {
         req_pos = Some(reqs.len());
         reqs.push(format!("(c08 call checked {} positional {})", name_sexp, encs.join(" ")));
